@@ -108,7 +108,7 @@ def run_once(build, policy, budget=4000):
         # fairness guard: a spinning thread (e.g. a failing try-lock loop) must not starve the others
         if c == streak[0]:
             streak[1] += 1
-            if streak[1] > FAIR and len(en) > 1:
+            if streak[1] > FAIR and len(en) > 1 and not getattr(policy, "following", False):
                 others = [t for t in en if t != c]
                 c = min(others, key=lambda t: lastrun.get(t, -1))
                 if hasattr(policy, "last"):
@@ -194,3 +194,65 @@ def spread(build, limit=300, budget=4000, on_result=None, seed=0):
         if on_result is not None:
             on_result(result, [c for (_, c) in st])
     return n
+
+
+class Guided:
+    """Follow a behaviour of the model: `seq` = [(thread, signature)] of its visible steps.  `sigof(thread, pending
+    label)` gives the signature of the operation a thread is about to perform (None = outside the model's alphabet).
+    At every choice: the thread of the next expected step runs if that step is what it is about to do; operations
+    outside the alphabet are let through (of that thread, or - when it is blocked - of another one, which is how e.g.
+    the dispatcher's own lock is released); anything else means the code cannot follow the behaviour (`diverged`).
+    Workers are interchangeable: which real worker stands for a worker of the model is decided when it picks up a
+    task (`pickup` = the signature of that step).  After the behaviour (or a divergence): no pre-emption."""
+
+    def __init__(self, seq, sigof, pickup=None):
+        self.seq = list(seq)
+        self.sigof = sigof
+        self.k = 0
+        self.diverged = None      # (position, expected, what the code offers)
+        self.last = None
+        self.pickup = pickup
+        self.ren = {}             # worker of the model -> real worker
+
+    def real(self, t):
+        return self.ren.get(t, t)
+
+    @property
+    def following(self):
+        # while a behaviour of the model is being followed the fairness guard of run_once must not interfere
+        return self.diverged is None and self.k < len(self.seq)
+
+    def note(self, thread, sig):
+        pass
+
+    def choose(self, S, en):
+        if self.diverged is None and self.k < len(self.seq):
+            t, g = self.seq[self.k]
+            r = self.real(t)
+            pend = {y: self.sigof(y, S.threads[y].pending) for y in en}
+            if g == self.pickup and t.startswith("w") and pend.get(r) != g:
+                cand = [y for y in en if y.startswith("w") and pend[y] == g]
+                if cand:
+                    y = cand[0]
+                    inv = {v: k for k, v in self.ren.items()}
+                    m = inv.get(y, y)
+                    self.ren[t], self.ren[m] = y, r
+                    r = y
+            if r in en and pend[r] == g:
+                self.k += 1
+                self.last = r
+                return r
+            if r in en and pend[r] is None:
+                self.last = r
+                return r
+            if r not in en:
+                helpers = [y for y in en if pend[y] is None]
+                if helpers:
+                    y = self.last if self.last in helpers else helpers[0]
+                    self.last = y
+                    return y
+            self.diverged = (self.k, (t, g), sorted((y, pend[y]) for y in en))
+        if self.last in en:
+            return self.last
+        self.last = en[0]
+        return en[0]
